@@ -384,6 +384,9 @@ def discard(tokeniser: 'Tokeniser') -> ExtendedCommunities:
 def rate_limit(tokeniser: 'Tokeniser') -> ExtendedCommunities:
     # README: We are setting the ASN as zero as that what Juniper (and Arbor) did when we created a local flow route
     speed: int = int(tokeniser())
+    if speed < 0:
+        # RFC 8955 section 7.1: on encoding, the traffic-rate must not be negative
+        raise ValueError(f"'{speed}' is not a valid rate-limit\n  Must not be negative")
     unit = tokeniser.peek()
     if unit in ('bytes', 'packets'):
         tokeniser()
